@@ -49,7 +49,8 @@ class Api:
         # pylint: disable=import-outside-toplevel
         from symplyphysics.core.coordinate_systems.coordinate_systems import CoordinateSystem, coordinates_transform
         from symplyphysics.core.vectors.vectors import Vector
-        from symplyphysics.core.vectors.arithmetics import dot_vectors, vector_magnitude, scale_vector
+        from symplyphysics.core.vectors.arithmetics import (dot_vectors, vector_magnitude, scale_vector, vector_unit,
+            project_vector)
         from symplyphysics.core.fields.scalar_field import ScalarField
         from symplyphysics.core.points.point import Point
         from symplyphysics.core.points.cartesian_point import CartesianPoint
@@ -63,6 +64,8 @@ class Api:
         self.dot_vectors = dot_vectors
         self.vector_magnitude = vector_magnitude
         self.scale_vector = scale_vector
+        self.vector_unit = vector_unit
+        self.project_vector = project_vector
         self.ScalarField = ScalarField
         self.Point = Point
         self.points = [CartesianPoint, CylinderPoint, SpherePoint]
@@ -85,6 +88,35 @@ class Api:
         """another system of kind i (for same-kind rebases)"""
         return self.coordinates_transform(self.sys[0], self.types[i])
 
+    # -- every operation must leave its argument objects as they were ------------------------------------------
+    def snapshot(self, o):
+        if isinstance(o, self.Vector):
+            return ("Vector", tuple(o.components), id(o.coordinate_system))
+        if isinstance(o, self.ScalarField):
+            return ("ScalarField", id(o.coordinate_system), id(o.field_function))
+        if isinstance(o, self.Point):
+            return ("Point", tuple(o.coordinates))
+        if isinstance(o, self.CoordinateSystem):
+            return ("CoordinateSystem", o.coord_system_type, id(o.coord_system))
+        return ("other", repr(o))
+
+    def preserved(self, what, *objs):
+        api = self
+
+        class Guard:
+            def __enter__(self):
+                self.before = [api.snapshot(o) for o in objs]
+
+            def __exit__(self, et, ev, tb):
+                if et is not None:
+                    return False
+                after = [api.snapshot(o) for o in objs]
+                for i, (x, y) in enumerate(zip(self.before, after)):
+                    if x != y:
+                        raise InputMutated(f"{what} changed its argument #{i}: before {x[:2]}, after {y[:2]}")
+                return False
+        return Guard()
+
     # -- legs: each takes python/sympy values and returns sympy expressions --------------------------------
     def table(self, a, b, vals):
         s = self.sys[a]
@@ -94,19 +126,30 @@ class Api:
 
     def rebase(self, a, b, comps):
         tgt = self.sys[b] if a != b else self.fresh(b)
-        v = self.Vector(list(comps), self.sys[a]).rebase(tgt)
+        arg = self.Vector(list(comps), self.sys[a])
+        with self.preserved("Vector.rebase", arg, tgt):
+            v = arg.rebase(tgt)
         if v.coordinate_system is not tgt:
             raise AssertionError("rebase returned a vector in another system")
         return list(v.components)
 
     def dot(self, a, u, v):
-        return self.dot_vectors(self.Vector(list(u), self.sys[a]), self.Vector(list(v), self.sys[a]))
+        x, y = self.Vector(list(u), self.sys[a]), self.Vector(list(v), self.sys[a])
+        with self.preserved("dot_vectors", x, y):
+            return self.dot_vectors(x, y)
 
     def mag(self, a, u):
-        return self.vector_magnitude(self.Vector(list(u), self.sys[a]))
+        x = self.Vector(list(u), self.sys[a])
+        with self.preserved("vector_magnitude", x):
+            return self.vector_magnitude(x)
 
     def scale(self, a, k, u):
-        return list(self.scale_vector(k, self.Vector(list(u), self.sys[a])).components)
+        x = self.Vector(list(u), self.sys[a])
+        with self.preserved("scale_vector", x):
+            out = self.scale_vector(k, x)
+        if out is x:
+            raise InputMutated("scale_vector returned its argument object")
+        return list(out.components)
 
     def field(self, a, expr_of_scalars, how="expr"):
         """a field in system a whose value is expr_of_scalars(q1, q2, q3)"""
@@ -118,16 +161,27 @@ class Api:
     def field_rebased_at(self, a, b, expr_of_scalars, coords, how="expr", via="point"):
         """value at the point with coordinates `coords` (in system b) of the field rebased from a to b"""
         tgt = self.sys[b] if a != b else self.fresh(b)
-        g = self.field(a, expr_of_scalars, how).rebase(tgt)
+        f0 = self.field(a, expr_of_scalars, how)
+        with self.preserved("ScalarField.rebase", f0, tgt):
+            g = f0.rebase(tgt)
         if g.coordinate_system is not tgt:
             raise AssertionError("field rebase returned a field in another system")
         if via == "point":
-            return g(self.points[b](*coords))
-        e = g.apply_to_basis()
+            pt = self.points[b](*coords)
+            with self.preserved("ScalarField.__call__", g, pt):
+                return g(pt)
+        with self.preserved("ScalarField.apply_to_basis", g):
+            e = g.apply_to_basis()
         return sp.sympify(e).xreplace(dict(zip(tgt.coord_system.base_scalars(), map(sp.sympify, coords))))
 
     def field_at(self, a, expr_of_scalars, coords, how="expr"):
-        return self.field(a, expr_of_scalars, how)(self.points[a](*coords))
+        f0, pt = self.field(a, expr_of_scalars, how), self.points[a](*coords)
+        with self.preserved("ScalarField.__call__", f0, pt):
+            return f0(pt)
+
+
+class InputMutated(AssertionError):
+    pass
 
 
 def refused(fn):
@@ -332,6 +386,22 @@ def _spec_checks(api):
 
     for (a, b) in ((0, 1), (0, 2), (1, 0), (2, 0)):
         checks[f"field_{LOW[SYSN[a]]}_{LOW[SYSN[b]]}"] = field_check(a, b)
+
+    def short_point_check(a):
+        def gen(rng):
+            return {"coords": list(gen_point(rng, a))[:rng.choice([1, 2])], "field": rng.choice(sorted(FIELDS)),
+                    "how": rng.choice(["expr", "lambda"]), "dress": rng.choice(["float", "Float", "Rational"])}
+
+        def pred(inp):
+            f = FIELDS[inp["field"]]
+            got = num(api.field_at(a, f, _dress(inp["coords"], inp["dress"]), inp["how"]))
+            full = list(inp["coords"]) + [0.0] * (3 - len(inp["coords"]))
+            want = num(f(*[sp.Float(v) for v in full]))
+            return close([got], [want]), {"value": got}, {"value_with_missing_coordinates_read_as_0": want}
+        return gen, pred
+
+    for a in range(3):
+        checks[f"field_shortpoint_{LOW[SYSN[a]]}"] = short_point_check(a)
     return checks
 
 
@@ -473,6 +543,9 @@ def build(api: Api, gen: Gen):
         for how in ("expr", "lambda"):
             leg(f"fieldat_{n}_{how}", lambda p, q, r, a=a, how=how: api.field_at(a, F, [p, q, r], how),
                 f"ScalarField({how}) in {n} called with a {n} point", [("F",), U], "R", "apply_field f u")
+        leg(f"fieldat_{n}_shortpoint", lambda p, q, a=a: api.field_at(a, F, [p, q], "expr"),
+            f"ScalarField in {n} called with a {n} point that carries two coordinates", [("F",), ("R", 0), ("R", 1)], "R",
+            "apply_field f (x0, x1, 0)")
         for b in range(3):
             if (a, b) in ((1, 2), (2, 1)):
                 continue
@@ -577,7 +650,16 @@ def build(api: Api, gen: Gen):
 # history stream: operations that REUSE the same system objects with different vectors / points / fields
 # ---------------------------------------------------------------------------------------------------------
 
-def hist_step(v: Api, st):
+def hist_step(v: Api, st, pool=None):
+    """pool: objects shared by the steps of one run (Vector / ScalarField / Point objects are created at first use and
+    then REUSED); pool=None: everything is built afresh for this one call"""
+    def obj(kind, i, make):
+        if pool is None:
+            return make()
+        return pool.setdefault((kind, i), make())
+
+    def vec(i):
+        return obj("vec", i, lambda: v.Vector(_dress(st["vecs"][i], "Float"), v.sys[st["sys"]]))
     try:
         op, s = st["op"], st["sys"]
         if op == "rebase":
@@ -588,7 +670,32 @@ def hist_step(v: Api, st):
             return [num(v.mag(s, _dress(st["u"], "Float")))]
         if op == "scale":
             return [num(e) for e in v.scale(s, sp.Float(st["k"]), _dress(st["u"], "Float"))]
-        return [num(v.field_rebased_at(s, st["to"], FIELDS[st["field"]], _dress(st["u"], "Float"), st["how"], st["via"]))]
+        if op == "field":
+            return [num(v.field_rebased_at(s, st["to"], FIELDS[st["field"]], _dress(st["u"], "Float"), st["how"], st["via"]))]
+        # ---- operations on objects that live across the steps of the sequence --------------------------------
+        if op == "o_scale":
+            return [num(e) for e in v.scale_vector(sp.Float(st["k"]), vec(st["i"])).components]
+        if op == "o_unit":
+            return [num(e) for e in v.vector_unit(vec(st["i"])).components]
+        if op == "o_project":
+            return [num(e) for e in v.project_vector(vec(st["i"]), vec(st["j"])).components]
+        if op == "o_magnitude":
+            return [num(v.vector_magnitude(vec(st["i"])))]
+        if op == "o_dot":
+            return [num(v.dot_vectors(vec(st["i"]), vec(st["j"])))]
+        if op == "o_rebase":
+            tgt = v.sys[st["to"]]
+            return [num(e) for e in vec(st["i"]).rebase(tgt).components]
+        if op == "o_components":
+            return [num(e) for e in vec(st["i"]).components]
+        fld = obj("field", 0, lambda: v.field(s, FIELDS[st["field"]], st["how"]))
+        if op == "o_fcall":
+            pt = obj("point", st["i"], lambda: v.points[s](*_dress(st["pts"][st["i"]], "Float")))
+            return [num(fld(pt))]
+        if op == "o_frebase":
+            g = fld.rebase(v.sys[st["to"]])
+            return [num(g(v.points[st["to"]](*_dress(st["u"], "Float"))))]
+        raise ValueError(op)
     except Exception as e:  # pylint: disable=broad-except
         return ("exception", f"{type(e).__name__}: {str(e)[:300]}")
 
@@ -599,7 +706,8 @@ def hist_same(x, y):
 
 def hist_first_bad(api: Api, seq):
     shared = api.fresh_view()
-    got = [hist_step(shared, st) for st in seq]
+    pool = {}
+    got = [hist_step(shared, st, pool) for st in seq]
     for i, st in enumerate(seq):
         ref = hist_step(api.fresh_view(), st)
         if not hist_same(got[i], ref):
@@ -621,8 +729,38 @@ def hist_gen(rng):
     return seq
 
 
+def hist_gen_objects(rng):
+    """operations applied to the SAME Vector / ScalarField / Point objects"""
+    s = rng.choice([1, 2, 1, 2, 0])
+    to = 0 if s != 0 else rng.choice([1, 2])
+    vecs = [list(gen_point(rng, s)) for _ in range(3)]
+    pts = [list(gen_point(rng, s)) for _ in range(2)]
+    base = {"sys": s, "to": to, "vecs": vecs, "pts": pts, "field": rng.choice(sorted(FIELDS)), "how": rng.choice(["expr", "lambda"])}
+    seq = []
+    for _ in range(rng.randint(3, 6)):
+        op = rng.choice(["o_scale", "o_unit", "o_project", "o_magnitude", "o_dot", "o_rebase", "o_components", "o_fcall", "o_frebase"])
+        i = rng.randrange(2)     # two of the three vectors carry most of the traffic
+        st = dict(base, op=op, i=i, j=rng.choice([j for j in range(3) if j != i]), k=away(rng), u=list(gen_point(rng, to)))
+        seq.append(st)
+    return seq
+
+
 def hist_describe(st):
     n = lambda i: LOW[SYSN[i]]
+    if st["op"].startswith("o_"):
+        o = st["op"][2:]
+        v = lambda i: f"V{i}={st['vecs'][i]}"
+        if o == "scale":
+            return f"scale_vector({st['k']}, {v(st['i'])}) in {n(st['sys'])}"
+        if o in ("unit", "magnitude", "components"):
+            return f"{ {'unit': 'vector_unit', 'magnitude': 'vector_magnitude', 'components': 'components of'}[o]}({v(st['i'])}) in {n(st['sys'])}"
+        if o in ("project", "dot"):
+            return f"{ {'project': 'project_vector', 'dot': 'dot_vectors'}[o]}({v(st['i'])}, {v(st['j'])}) in {n(st['sys'])}"
+        if o == "rebase":
+            return f"{v(st['i'])} ({n(st['sys'])}) .rebase({n(st['to'])})"
+        if o == "fcall":
+            return f"field F0={st['field']}/{st['how']} in {n(st['sys'])} called with point P{st['i']}={st['pts'][st['i']]}"
+        return f"field F0={st['field']}/{st['how']} in {n(st['sys'])} .rebase({n(st['to'])}) at {st['u']}"
     if st["op"] == "rebase":
         return f"Vector({st['u']}, {n(st['sys'])}).rebase({n(st['to'])})"
     if st["op"] == "field":
@@ -636,7 +774,7 @@ def hist_describe(st):
 
 def history_stream(ctx, api: Api):
     rng = ctx.rng
-    seqs = [hist_gen(rng) for _ in range(ctx.pick(10, 80))]
+    seqs = [hist_gen(rng) for _ in range(ctx.pick(10, 80))] + [hist_gen_objects(rng) for _ in range(ctx.pick(14, 100))]
     steps, reported = 0, set()
     for seq in seqs:
         steps += len(seq)
@@ -655,6 +793,8 @@ def history_stream(ctx, api: Api):
         got, ref = (b3[1], b3[2]) if b3 else (bad[1], bad[2])
         last = cur[-1]
         key = f"C11:history:{last['op']}_{LOW[SYSN[last['sys']]]}_{LOW[SYSN[last['to']]]}"
+        if last["op"].startswith("o_") and len(cur) >= 2:
+            key = f"C11:history:{cur[-2]['op']}-then-{last['op']}_{LOW[SYSN[last['sys']]]}"
         if key in reported:
             continue
         reported.add(key)
@@ -936,7 +1076,9 @@ def run(ctx):
         "inside the domain, |coordinates| in [0.2,3], radius >= 0.2, polar angle in [0.15,2.9], dressed as float/Float/Rational; "
         "value-obliviousness: every non-field leg run on concrete numbers and compared with its generic output; "
         "history stream: seeded sequences of 3-6 operations (rebase both directions, field rebase, dot, magnitude, scale) on ONE set of "
-        "system objects, each result compared with the same call on fresh system objects; "
+        "system objects, each result compared with the same call on fresh system objects; plus sequences of operations (scale_vector, "
+        "vector_unit, project_vector, magnitude, dot, rebase, field call / rebase) applied to the SAME Vector / ScalarField / Point objects; "
+        "every Api call also checks that its argument objects are unchanged afterwards; "
         "tables: all 27 (operation, from, to) rows and all 24 (callable, point kind, field kind) rows. "
         "distinct = distinct (check, input) pairs; all are non-trivial (off the singular sets, all components non-zero)")
     ctx.coverage["spec_checks"] = sorted(checks)
@@ -949,8 +1091,9 @@ def replay(ctx, rep):
         seq = rep["sequence"]
         shared = api.fresh_view()
         bad = False
+        pool = {}
         for st in seq:
-            g = hist_step(shared, st)
+            g = hist_step(shared, st, pool)
             ref = hist_step(api.fresh_view(), st)
             same = hist_same(g, ref)
             bad = bad or not same
